@@ -66,6 +66,7 @@ def handleSlots (j : Json) : Except String Json := do
 def parseSnapEv (e : Json) : Except String (SnapEv × Option Nat) := do
   let (n, a) ← evName e
   match n with
+  | "enterPut" => pure (.enterPut, (argNat a 0).toOption)
   | "put" => pure (.put, (argNat a 0).toOption)
   | "prodStop" => pure (.prodStop, none)
   | "prodVisible" => pure (.prodVisible, none)
@@ -78,17 +79,18 @@ def parseSnapEv (e : Json) : Except String (SnapEv × Option Nat) := do
   | _ => throw s!"unknown snapshot event {n}"
 
 def chunkMatches (s : Snap) : SnapEv → Option Nat → Bool
+  | .enterPut, some k => s.produced == k
   | .put, some k => s.produced == k
   | .take _, some k => s.queue.head? == some k
   | .finish w _, some k => s.workers[w]? == some (.busy k)
   | _, _ => true
 
-def runSnap : Snap → List (SnapEv × Option Nat) → Nat → Except (Nat × String) Snap
+def runSnap (rechecks : Bool) : Snap → List (SnapEv × Option Nat) → Nat → Except (Nat × String) Snap
   | s, [], _ => .ok s
   | s, (e, k) :: es, i =>
     if !chunkMatches s e k then .error (i, "chunk differs from the model's (FIFO queue / worker's chunk)") else
-    match Snap.step s e with
-    | some s' => runSnap s' es (i + 1)
+    match Snap.step rechecks s e with
+    | some s' => runSnap rechecks s' es (i + 1)
     | none => .error (i, "snapshot event not enabled")
 
 def wphaseJson : WPhase → Json
@@ -101,13 +103,16 @@ def handleSnap (j : Json) : Except String Json := do
   let total ← getNat j "total"
   let n ← getNat j "n"
   let evs ← (← getArr j "events").toList.mapM parseSnapEv
-  match runSnap (Snap.init total n) evs 0 with
+  let rechecks := optBool j "rechecks" Gen.producerRechecksWhileFull
+  match runSnap rechecks (Snap.init total n) evs 0 with
   | .error (i, why) => pure (notOk i why)
   | .ok s =>
     pure (Json.mkObj [("ok", Json.bool true), ("processed", natArr s.processed.reverse), ("queue", natArr s.queue),
       ("produced", jnat s.produced), ("prodDone", Json.bool s.prodDone), ("abort", Json.bool s.abort),
       ("workers", Json.arr (s.workers.map wphaseJson).toArray), ("uploaded", Json.bool s.uploaded),
-      ("finished", Json.bool s.finished), ("lost", natArr s.lost), ("cap", jnat s.cap), ("measure", jnat s.measure)])
+      ("finished", Json.bool s.finished), ("lost", natArr s.lost), ("cap", jnat s.cap), ("measure", jnat s.measure),
+      ("inPut", Json.bool s.inPut), ("prodFinished", Json.bool s.prodFinished), ("rechecks", Json.bool rechecks),
+      ("stuck", Json.bool (Snap.stuck rechecks s))])
 
 /-! ### restore: writer locks -/
 
@@ -234,6 +239,7 @@ def handleSched (op : String) (j : Json) : Except String Json := do
       ("workerContinues", Json.arr #[Json.bool (Gen.workerContinues false false), Json.bool (Gen.workerContinues false true),
         Json.bool (Gen.workerContinues true false), Json.bool (Gen.workerContinues true true)]),
       ("abortOnWorkerFailure", Json.bool Gen.abortOnWorkerFailure), ("producerStopsOnAbort", Json.bool Gen.producerStopsOnAbort),
+      ("producerRechecksWhileFull", Json.bool Gen.producerRechecksWhileFull),
       ("flockShapeRecognised", Json.bool Gen.flockShapeRecognised), ("flockDelAtZero", Json.bool Gen.flockDelAtZero),
       ("loaderJoinsWritersFirst", Json.bool Gen.loaderJoinsWritersFirst), ("removeUnderGlock", Json.bool Gen.removeUnderGlock),
       ("popUnderGlock", Json.bool Gen.popUnderGlock), ("finaliseDecidedUnderLock", Json.bool Gen.finaliseDecidedUnderLock),
